@@ -284,6 +284,52 @@ Proof.
     unfold mark_cached, get_bundler, put_bundler. destruct (alookup run (bundlers P D s)); unfold keep; repeat split; cbn; congruence.
 Qed.
 
+Lemma keep_run : forall evs (s : st) s1 o1,
+  forallb (fun e => negb (decides e)) evs = true -> run P presume plan_of D dev s evs = (s1, o1) -> keep s s1.
+Proof.
+  induction evs as [|e evs IH]; intros s s1 o1 Hd H; cbn in H.
+  - inversion H; subst. unfold keep; repeat split.
+  - cbn in Hd. apply andb_true_iff in Hd as [Hd1 Hd2]. apply negb_true_iff in Hd1.
+    destruct (step P presume plan_of D dev s e) as [sa oa] eqn:Ea.
+    destruct (run P presume plan_of D dev sa evs) as [sb ob] eqn:Eb. inversion H; subst.
+    apply (keep_until_finalize _ _ _ _ Hd1) in Ea. apply (IH _ _ _ Hd2) in Eb.
+    destruct Ea as (?&?&?&?), Eb as (?&?&?&?). unfold keep; repeat split; congruence.
+Qed.
+
+(* once `_run` sits in its final sleep the decision stands: whatever requests, statuses and releases
+   arrive (anything but an abort/halt request or a main-thread call), the task's next step closes
+   every run still open with the status and reason decided, and finishes *)
+Theorem decision_reaches_stops (s : st) r evs s1 o1 s2 o2 :
+  pc P D s = PcFinalSleep r -> forallb (fun e => negb (decides e)) evs = true ->
+  run P presume plan_of D dev s evs = (s1, o1) -> step P presume plan_of D dev s1 EvTask = (s2, o2) ->
+  docs_of o2 = stops_of (bundlers P D s1) (exit_status P D s) (if exit_reason_set P D s then RsExnText else reason P D s) /\
+  bundlers P D s2 = [] /\ exists res, pc P D s2 = PcDone res.
+Proof.
+  intros Hpc Hd Hr Hs. apply (keep_run _ _ _ _ Hd) in Hr as (K1 & K2 & K3 & K4).
+  cbn [step] in Hs. rewrite (final_sleep_step s1 r) in Hs by (rewrite K1; exact Hpc).
+  apply finalize_spec in Hs as (F1 & F2 & F3 & F4).
+  cbn [bundlers exit_status exit_reason_set reason set_must_cancel upd] in F1. rewrite K2, K3, K4 in F1.
+  repeat split; try assumption. destruct F4 as [F4|F4]; eexists; exact F4.
+Qed.
+
+(* an unhandled error does not wait: the runs are closed with 'fail' and the exception text in the
+   same step, and the task raises the error *)
+Theorem fail_closes_at_once fuel (s : st) e os s' o :
+  sleeps (XExn e) = false -> e <> EGeneratorExit ->
+  drive P presume plan_of D dev (S (S fuel)) s (CExit (XExn e)) os = (s', o) ->
+  docs_of o = docs_of os ++ stops_of (bundlers P D s) XFail RsExnText /\ bundlers P D s' = [] /\
+  (pc P D s' = PcDone (TRaise e) \/ pc P D s' = PcDone (TRaise ETransition)).
+Proof.
+  intros Hs Hne. rewrite exit_mapping, Hs. cbv zeta.
+  assert (E : match e with EGeneratorExit => set_exit P D s XFail (reason P D s) | _ => set_ers P D (set_exit P D s XFail (reason P D s)) true end
+              = set_ers P D (set_exit P D s XFail (reason P D s)) true) by (destruct e; try reflexivity; exfalso; apply Hne; reflexivity).
+  rewrite E. cbn [drive].
+  destruct (finalize P presume D dev (set_ers P D (set_exit P D s XFail (reason P D s)) true) (TReturn NO_RETURN) (Some (raised_of e))) as [s1 o1] eqn:Ef.
+  intros H; inversion H; subst. apply finalize_spec in Ef as (F1 & F2 & F3 & F4).
+  rewrite docs_of_app, F1. repeat split; try assumption.
+  assert (Er : raised_of e = e) by (destruct e; try reflexivity; exfalso; apply Hne; reflexivity). unfold final_result in F4. rewrite Er in F4. exact F4.
+Qed.
+
 (* an abort request sets status and reason whether or not it is accepted (as the code does) *)
 Theorem abort_request_sets_reason (s : st) rs s' o :
   state P D s <> Idle -> step P presume plan_of D dev s (EvReqAbort rs) = (s', o) ->
